@@ -13,7 +13,7 @@ def _params():
     out = []
     for layers in STACKS:
         for ncan in (1, 2):
-            for when in (0.0, 0.5, 1.5):
+            for when in (0.0, 0.5, 1.0, 1.5):
                 if when > 0 and "retry" not in layers and "poll" not in layers:
                     continue
                 for script in (("E", "E", "ok"), ("ok",)):
